@@ -2,7 +2,7 @@ CONSTANTS
   MaxSeq = 2
   Triples = FALSE
   FilePairs = "reduced"
-  ReducedPairVC = {"zero", "max", "filelen", "self", "eqnext"}
+  ReducedPairVC = {"zero", "max", "filelen", "self", "eqnext", "der-1"}
 SPECIFICATION Spec
 INVARIANTS LemmasAndEmit Sanity
 CHECK_DEADLOCK FALSE
